@@ -221,6 +221,13 @@ class Check:
         return {}
 
 
+def _real_tmp():
+    for d in ("/dev/shm", "/tmp"):
+        if os.path.isdir(d) and os.access(d, os.W_OK):
+            return d
+    return None
+
+
 def run_trace(check, trace):
     """Single entry point for executing a trace: resets per-execution
     simulator state (name streams) so that execution is a pure function of
@@ -228,6 +235,12 @@ def run_trace(check, trace):
     mod = sys.modules.get("sim.simproc")
     if mod is not None:
         mod.NAMES.n = 0
+    mod = sys.modules.get("sim.simfs")
+    if mod is not None:
+        mod._FDS.clear()
+        mod._FD_NEXT[0] = mod._FD_BASE
+    import random
+    random.seed(0x5EED)      # the module-level generator, if the SUT uses it
     saved = sys.stdout
     sys.stdout = _NullOut()      # the SUT prints; only the harness reports
     try:
@@ -352,7 +365,8 @@ def _in_fork(fn):
     import signal
     import tempfile
     r, w = os.pipe()
-    dump = tempfile.NamedTemporaryFile(prefix="verif-stack-", delete=False)
+    dump = tempfile.NamedTemporaryFile(prefix="verif-stack-", delete=False,
+                                       dir=_real_tmp())
     dump.close()
     pid = os.fork()
     if pid == 0:
